@@ -18,6 +18,17 @@ CHECKS = {
              'z3 and the symx executor are trusted; each path is re-run natively and compared.',
         design='DESIGN.md section 2 C12'),
 }
+CHECKS['C01'] = dict(
+    technique='bounded symbolic execution (z3, own executor): one inductive scheduler step from a symbolic recorded state over symbolic DAG shapes',
+    text='The real Controller._schedule/finalize_submit_components are executed from every recorded state (membership in '
+         'comp_done/comp_staged_in, component states, options) satisfying the invariant, over every forward-edge DAG of the '
+         'bounded size; launches are compared with the dependency rule. The invariant itself is re-established by '
+         'finishedCheck/kill_all_components/init_comps in the same run, so the step extends to histories of any length '
+         'for DAGs within the bound.',
+    note='rx subscriptions recorded not threaded; stability/status/migration stubs; finishedCheck assumed to be called only for '
+         'dead components (notifyFinished contract); z3 + symx trusted, every path re-run natively.',
+    design='DESIGN.md section 2 C01')
+
 NOT_APPLICABLE = {
     'C07': 'round trip through the real file system, PyYAML (C) and Experiment construction: nothing on the path can be made symbolic; the technique would degenerate to example testing',
     'C15': 'quantifies over processes with different hash seeds / directory listing orders, which are not values inside one symbolic execution',
